@@ -46,9 +46,10 @@ var parseChain = map[string]bool{
 func init() {
 	register(&propertySpec{
 		ID: "C01", Fixtures: []string{"FMTCONST", "EXTCUT", "GLOB"}, NeedCG: true, Quick: cfgAMD, Thorough: cfgAll,
-		Explanation: "Decides the structural conditions PAR2 repair rests on, for every path of the code: the only failure of reconstruction - a singular or under-determined system - is propagated as an error through every frame from the row reduction up to par2.Repair (ERRFLOW on the reconstruct chain); Repair returns nil only after every buffer it wrote matched the archive's 16k-hash and MD5, and a mismatch returns an error (WGUARD with error returns); writer and reader agree on the coder constructor, on its dimensions being the lengths of the very slices handed to it (the parity table is indexed by exponent), on slice cutting/padding and on the checksum functions (PAIR); every recovery block accepted as a parity shard has the slice size the coder's equal-length precondition needs (SHLEN); per-file damage flags are written to the record Repair reads, not to a copy (DEADST/LOCALCOPY); intact files are recognised with the full per-file predicate (SKIPOK); expected and found slice locations accumulate, so repeated slice contents do not consume recovery blocks (ACCUM); the coder workers partition the slice correctly for every goroutine count (RACE); Repair declares success only through Decoder.Repair (ENTRY-SEQ); the file writer replaces whole files (EFF write-impl). Round-3 additions: after a data file has been read, no return skips the slice search or the two file-level checks (MUSTPASS); elementary row operations cover the whole row of the matrix they touch, also of the wider augmented matrix (ROWCOVER); every surviving recovery block is a candidate row - a nil shard is skipped, it does not end the scan (FILTER). Later additions: format strings, extension cuts and index-path prefixes are literal (FMTCONST, EXTCUT, BASECUT); the checksum map returns exactly m[crc][md5(data)] (GETKEYS); no write follows a failed reconstruction and the not-enough error needs a missing slice (NOWRITE, NEEDSLICE); the file reader returns the OS error itself, which the missing-file test needs (ERRIDENT); no value is copied into a like-typed field of another name (FIELDCROSS); deep comparisons compare like with like (DEEPEQ); a volume file's blocks are used only after its main packet's slice size and file-id sets matched the index file's (VOLCONS); volume discovery lists literally and completely (GLOB, GLOBCALL); the slice search covers every offset, its rolling checksum stays coupled to the scan position and padded slices have the requested length (SCANALL, ROLLSCAN, WINTAB, PADCUT - the clauses of C16); the double check skips exponents not loaded and Repair reaches its write loop before declaring success (DCHECKSKIP, WRITELOOP).",
+		Explanation: "Decides the structural conditions PAR2 repair rests on, for every path of the code: the only failure of reconstruction - a singular or under-determined system - is propagated as an error through every frame from the row reduction up to par2.Repair (ERRFLOW on the reconstruct chain); Repair returns nil only after every buffer it wrote matched the archive's 16k-hash and MD5, and a mismatch returns an error (WGUARD with error returns); writer and reader agree on the coder constructor, on its dimensions being the lengths of the very slices handed to it (the parity table is indexed by exponent), on slice cutting/padding and on the checksum functions (PAIR); every recovery block accepted as a parity shard has the slice size the coder's equal-length precondition needs (SHLEN); per-file damage flags are written to the record Repair reads, not to a copy (DEADST/LOCALCOPY); intact files are recognised with the full per-file predicate (SKIPOK); expected and found slice locations accumulate, so repeated slice contents do not consume recovery blocks (ACCUM); the coder workers partition the slice correctly for every goroutine count (RACE); Repair declares success only through Decoder.Repair (ENTRY-SEQ); the file writer replaces whole files (EFF write-impl). Round-3 additions: after a data file has been read, no return skips the slice search or the two file-level checks (MUSTPASS); elementary row operations cover the whole row of the matrix they touch, also of the wider augmented matrix (ROWCOVER); every surviving recovery block is a candidate row - a nil shard is skipped, it does not end the scan (FILTER). Later additions: format strings, extension cuts and index-path prefixes are literal (FMTCONST, EXTCUT, BASECUT); the checksum map returns exactly m[crc][md5(data)] (GETKEYS); no write follows a failed reconstruction and the not-enough error needs a missing slice (NOWRITE, NEEDSLICE); the file reader returns the OS error itself, which the missing-file test needs (ERRIDENT); no value is copied into a like-typed field of another name (FIELDCROSS); deep comparisons compare like with like (DEEPEQ); a volume file's blocks are used only after its main packet's slice size and file-id sets matched the index file's (VOLCONS); volume discovery lists literally and completely (GLOB, GLOBCALL); the slice search covers every offset, its rolling checksum stays coupled to the scan position and padded slices have the requested length (SCANALL, ROLLSCAN, WINTAB, PADCUT - the clauses of C16); the double check skips exponents not loaded and Repair reaches its write loop before declaring success (DCHECKSKIP, WRITELOOP). Reconstruction goes through the solver: the matrix returned without error is RowReduceForInverse output and the rows ReconstructData fills in are applyMatrix output for that matrix (SOLVE).",
 		NotDecided:  []string{"that Repair succeeds whenever k blocks survive (matrix algebra, slice search at every offset)", "volume discovery beyond what C06 decides", "the values of the reconstructed bytes"},
 		Run: func(w *World, r *Report, tier string) {
+			guard(r, "SOLVE", func() { ruleSOLVE(w, r); ruleSOLVEStores(w, r) })
 			guard(r, "WRITELOOP", func() { ruleWRITELOOP(w, r) })
 			guard(r, "DCHECKSKIP", func() { ruleDCHECKSKIP(w, r) })
 			guard(r, "PADCUT", func() { rulePADCUT(w, r) })
@@ -203,9 +204,10 @@ func init() {
 
 	register(&propertySpec{
 		ID: "C06", Fixtures: []string{"GLOB", "DEEPEQ"}, NeedCG: true, Quick: cfgAMD, Thorough: cfgAll,
-		Explanation: "Decides the reader-side structure that layout independence needs: volume discovery lists the directory with an error-returning API and matches prefix and suffix literally, with no further filter, so no base name is interpreted as a pattern and every '<base>.*.par2' beside the index file is returned (GLOB); a file of the set without a main packet cannot be dereferenced (NILF); packets of other sets and of unknown types are skipped without ending the file or storing anything (GATE G2/G3); the exponent-indexed parity table grows without narrow-type wrap and the coder has a row for every index of it (WIRE S2/S5, PAIR); comparisons of duplicated packets compare like with like and the sparse parity table is never compared as a whole (DEEPEQ); a header-only packet is accepted (CONST length bound). Volume discovery asks for exactly '<base>.' + ext (GLOBCALL); the handling of one packet type never branches on state written while handling another type, so packet order cannot matter (ORDERINDEP); the coder considers every surviving recovery block, also after a gap in the exponents (FILTER). Later additions: extension and prefix cuts by length (EXTCUT, BASECUT); names pass the sanitiser unaltered (SANIT, NAMEFID); a packet is filed under the key parsed with it and a recovery block lands in the table at its own exponent (EXPKEY); usable recovery blocks are counted from the exponent table, once each (DECIDE counts); the double check compares only exponents that were loaded (DCHECKSKIP); parse errors propagate (ERRFLOW on the parsing functions).",
+		Explanation: "Decides the reader-side structure that layout independence needs: volume discovery lists the directory with an error-returning API and matches prefix and suffix literally, with no further filter, so no base name is interpreted as a pattern and every '<base>.*.par2' beside the index file is returned (GLOB); a file of the set without a main packet cannot be dereferenced (NILF); packets of other sets and of unknown types are skipped without ending the file or storing anything (GATE G2/G3); the exponent-indexed parity table grows without narrow-type wrap and the coder has a row for every index of it (WIRE S2/S5, PAIR); comparisons of duplicated packets compare like with like and the sparse parity table is never compared as a whole (DEEPEQ); a header-only packet is accepted (CONST length bound). Volume discovery asks for exactly '<base>.' + ext (GLOBCALL); the handling of one packet type never branches on state written while handling another type, so packet order cannot matter (ORDERINDEP); the coder considers every surviving recovery block, also after a gap in the exponents (FILTER). Later additions: extension and prefix cuts by length (EXTCUT, BASECUT); names pass the sanitiser unaltered (SANIT, NAMEFID); a packet is filed under the key parsed with it and a recovery block lands in the table at its own exponent (EXPKEY); usable recovery blocks are counted from the exponent table, once each (DECIDE counts); the double check compares only exponents that were loaded (DCHECKSKIP); parse errors propagate (ERRFLOW on the parsing functions). Reconstruction goes through the solver: the matrix returned without error is RowReduceForInverse output and the rows ReconstructData fills in are applyMatrix output for that matrix (SOLVE).",
 		NotDecided:  []string{"insensitivity to packet order and duplication as behaviour"},
 		Run: func(w *World, r *Report, tier string) {
+			guard(r, "SOLVE", func() { ruleSOLVE(w, r); ruleSOLVEStores(w, r) })
 			guard(r, "DCHECKSKIP", func() { ruleDCHECKSKIP(w, r) })
 			guard(r, "GLOB", func() { ruleGLOB(w, r, globAll) })
 			guard(r, "NILF", func() { ruleNILF(w, r) })
@@ -238,7 +240,7 @@ func init() {
 			guard(r, "ROWCOVER", func() { ruleROWCOVER(w, r) })
 			guard(r, "ELIM", func() { ruleELIM(w, r) })
 			guard(r, "INVSOLVE", func() { ruleINVSOLVE(w, r) })
-			guard(r, "SOLVE", func() { ruleSOLVE(w, r) })
+			guard(r, "SOLVE", func() { ruleSOLVE(w, r); ruleSOLVEStores(w, r) })
 			guard(r, "TABLEFILL", func() {
 				if w.GOARCH == "amd64" {
 					ruleTABLEFILL(w, r, 2, "mulTable", "mulTable64")
@@ -306,9 +308,10 @@ func init() {
 
 	register(&propertySpec{
 		ID: "C10", Fixtures: []string{"FMTCONST"}, NeedCG: true, Quick: cfgAMD, Thorough: cfgAll,
-		Explanation: "Compares the PAR1 writer and reader with tables transcribed from the PAR 1.0 specification: header and entry layouts, identification string, version (low 32 bits only on the reader - the high half is the generator id), file list offset 0x60, control hash over bytes from 0x20 on both sides, status bit 0, the 16 KiB prefix, little-endian only (CONST par1); names go through unicode/utf16 on both sides and the PAR1 matrix option is used on both sides (PAIR); the set hash and the data shards cover saved entries only, and a slice that is a filtered image of the entry list is never used to index the unfiltered list (GATE, IDXDOM); table lookups on header fields stay in range (RANGE). Later additions: extension/prefix cuts (EXTCUT, BASECUT); no branch on the decoded name (NAMESYM); saved entries only (SAVEDONLY); header fields are stored before the header is written (HDRFIELDS); the requested volume count is kept (OPTKEEP); volume n carries parity row n-1 in header, file name, reader table and shard position (PAR1VOL); volume names are built with a constant format (FMTCONST); the file counts are pure counters over the saved entries' slots (DECIDE counts); immutability of the entry list (IMMUT); the writer replaces whole files (EFF write-impl).",
+		Explanation: "Compares the PAR1 writer and reader with tables transcribed from the PAR 1.0 specification: header and entry layouts, identification string, version (low 32 bits only on the reader - the high half is the generator id), file list offset 0x60, control hash over bytes from 0x20 on both sides, status bit 0, the 16 KiB prefix, little-endian only (CONST par1); names go through unicode/utf16 on both sides and the PAR1 matrix option is used on both sides (PAIR); the set hash and the data shards cover saved entries only, and a slice that is a filtered image of the entry list is never used to index the unfiltered list (GATE, IDXDOM); table lookups on header fields stay in range (RANGE). Later additions: extension/prefix cuts (EXTCUT, BASECUT); no branch on the decoded name (NAMESYM); saved entries only (SAVEDONLY); header fields are stored before the header is written (HDRFIELDS); the requested volume count is kept (OPTKEEP); volume n carries parity row n-1 in header, file name, reader table and shard position (PAR1VOL); volume names are built with a constant format (FMTCONST); the file counts are pure counters over the saved entries' slots (DECIDE counts); immutability of the entry list (IMMUT); the writer replaces whole files (EFF write-impl). What Create writes is a function of its arguments: package par1 has no package-level variable written after initialisation (GLOBALS); the name conversions pass through unicode/utf16 on every path (PAIR every-path).",
 		NotDecided:  []string{"the parity byte values (GF(2^8) arithmetic in klauspost/reedsolomon)"},
 		Run: func(w *World, r *Report, tier string) {
+			guard(r, "GLOBALS", func() { ruleGLOBALS(w, r, map[string]bool{"par1": true}) })
 			guard(r, "DECIDE", func() { ruleDECIDECounts(w, r, map[string]bool{"par1": true}) })
 			guard(r, "FMTCONST", func() { ruleFMTCONST(w, r) })
 			guard(r, "CONST", func() { ruleCONST(w, r, constOpts{par1: true}) })
@@ -380,9 +383,10 @@ func init() {
 
 	register(&propertySpec{
 		ID: "C13", Fixtures: []string{"BUFNEXT"}, NeedCG: true, Quick: cfgAMD32, Thorough: cfgAll,
-		Explanation: "Decides necessary conditions for 'corruption never crashes or misleads': every integer that comes from an archive - including the packet length, which no checksum covers - is bounded before it is converted, used as a size, as a slice bound or as a divisor, and bytes from Buffer.Next are length-checked before indexing (WIRE, per GOARCH); nil-able packet pointers are checked before use (NILF); allocation lengths that are differences are shown non-negative (MKLEN); table lookups on header fields stay in range (RANGE); everything accepted lies behind the packet MD5 / control hash / set id gates, so bit flips stop there (GATE); parse errors are propagated, never turned into results (ERRFLOW on the parsing functions). Nil checks that detect a missing packet can actually fire (NILLIVE); a slice collected by appends is indexed with a constant only under a lower bound on its length (NONEMPTY); the coder has a row for every index of the exponent-indexed parity table (PAIR decoder dims). Later additions: a packet with an empty checksum list is rejected (IFSCPAIRS); reslicing to h is preceded by h <= len or cap (SLICECAP); the slice-record table has one element per checksum pair (SHARDTAB); nothing is allocated from a declared size before it was compared with data held (ALLOCBOUND); the reader returns the OS error itself (ERRIDENT); no write after a failed reconstruction (NOWRITE); the write primitive is whole-file (EFF write-impl); a path is reported and decoder state updated only after its write succeeded (REPORT, POSTWRITE); Repair does not return success before the write loop (WRITELOOP); damage flags reach the record the verdict reads (DEADST/LOCALCOPY).",
+		Explanation: "Decides necessary conditions for 'corruption never crashes or misleads': every integer that comes from an archive - including the packet length, which no checksum covers - is bounded before it is converted, used as a size, as a slice bound or as a divisor, and bytes from Buffer.Next are length-checked before indexing (WIRE, per GOARCH); nil-able packet pointers are checked before use (NILF); allocation lengths that are differences are shown non-negative (MKLEN); table lookups on header fields stay in range (RANGE); everything accepted lies behind the packet MD5 / control hash / set id gates, so bit flips stop there (GATE); parse errors are propagated, never turned into results (ERRFLOW on the parsing functions). Nil checks that detect a missing packet can actually fire (NILLIVE); a slice collected by appends is indexed with a constant only under a lower bound on its length (NONEMPTY); the coder has a row for every index of the exponent-indexed parity table (PAIR decoder dims). Later additions: a packet with an empty checksum list is rejected (IFSCPAIRS); reslicing to h is preceded by h <= len or cap (SLICECAP); the slice-record table has one element per checksum pair (SHARDTAB); nothing is allocated from a declared size before it was compared with data held (ALLOCBOUND); the reader returns the OS error itself (ERRIDENT); no write after a failed reconstruction (NOWRITE); the write primitive is whole-file (EFF write-impl); a path is reported and decoder state updated only after its write succeeded (REPORT, POSTWRITE); Repair does not return success before the write loop (WRITELOOP); damage flags reach the record the verdict reads (DEADST/LOCALCOPY). Reconstruction goes through the solver: the matrix returned without error is RowReduceForInverse output and the rows ReconstructData fills in are applyMatrix output for that matrix (SOLVE).",
 		NotDecided:  []string{"full panic freedom (the compiler leaves 60+ bounds checks unproven in the readers; relational reasoning)", "termination of every loop", "crash prefixes of Create as histories"},
 		Run: func(w *World, r *Report, tier string) {
+			guard(r, "SOLVE", func() { ruleSOLVE(w, r); ruleSOLVEStores(w, r) })
 			guard(r, "DEADST", func() { ruleDEADST(w, r) })
 			guard(r, "WRITELOOP", func() { ruleWRITELOOP(w, r) })
 			guard(r, "POSTWRITE", func() { rulePOSTWRITE(w, r) })
@@ -409,9 +413,10 @@ func init() {
 
 	register(&propertySpec{
 		ID: "C14", Fixtures: []string{"GLOBALS", "EFF"}, NeedCG: true, Quick: cfgAMD, Thorough: cfgAll,
-		Explanation: "Decides that the only state between operations is the directory and that operations treat it as the property requires: no package-level variable is written after initialisation (GLOBALS); Verify reaches no write (EFF E3); Repair rewrites a file only if the full per-file predicate - evaluated before reconstruction overwrites the slice records, with the same index as the entry - found it damaged, the very predicate Verify's verdict uses (SKIPOK, DECIDE counts); only buffers that matched the entry's hashes are written, each to the entry's own name, and reported iff written (WGUARD, REPORT). The writer primitive replaces whole files (EFF write-impl); damage flags are stored to the record, not to a copy (DEADST/LOCALCOPY); decoder state is marked restored only after the write succeeded (POSTWRITE). Later additions: the checksum map returns exactly m[crc][md5(data)] (GETKEYS); no write after a failed reconstruction, not-enough only with a missing slice (NOWRITE, NEEDSLICE); the PAR1 shard size comes from the first volume found (SIZESENT); every surviving block is a candidate (FILTER); volume listing literal and complete (GLOB); entries immutable (IMMUT); the PAR1 double check verifies what Reconstruct completed (PAIR); PAR2 Repair does not return success before the write loop (WRITELOOP); no error of a read or write is reclassified as mere damage (ERRFLOW over par1 and par2).",
+		Explanation: "Decides that the only state between operations is the directory and that operations treat it as the property requires: no package-level variable is written after initialisation (GLOBALS); Verify reaches no write (EFF E3); Repair rewrites a file only if the full per-file predicate - evaluated before reconstruction overwrites the slice records, with the same index as the entry - found it damaged, the very predicate Verify's verdict uses (SKIPOK, DECIDE counts); only buffers that matched the entry's hashes are written, each to the entry's own name, and reported iff written (WGUARD, REPORT). The writer primitive replaces whole files (EFF write-impl); damage flags are stored to the record, not to a copy (DEADST/LOCALCOPY); decoder state is marked restored only after the write succeeded (POSTWRITE). Later additions: the checksum map returns exactly m[crc][md5(data)] (GETKEYS); no write after a failed reconstruction, not-enough only with a missing slice (NOWRITE, NEEDSLICE); the PAR1 shard size comes from the first volume found (SIZESENT); every surviving block is a candidate (FILTER); volume listing literal and complete (GLOB); entries immutable (IMMUT); the PAR1 double check verifies what Reconstruct completed (PAIR); PAR2 Repair does not return success before the write loop (WRITELOOP); no error of a read or write is reclassified as mere damage (ERRFLOW over par1 and par2). Reconstruction goes through the solver: the matrix returned without error is RowReduceForInverse output and the rows ReconstructData fills in are applyMatrix output for that matrix (SOLVE).",
 		NotDecided:  []string{"closure of the reachable history graph", "that every location of a repeated slice content is credited (value level)"},
 		Run: func(w *World, r *Report, tier string) {
+			guard(r, "SOLVE", func() { ruleSOLVE(w, r); ruleSOLVEStores(w, r) })
 			guard(r, "ERRFLOW", func() { ruleERRFLOW(w, r, errflowScope{pkgs: []string{"par1", "par2"}, tag: " in par1 and par2"}, 60) })
 			guard(r, "WRITELOOP", func() { ruleWRITELOOP(w, r) })
 			guard(r, "GLOBALS", func() { ruleGLOBALS(w, r, nil) })
@@ -513,7 +518,7 @@ func init() {
 
 	register(&propertySpec{
 		ID: "C19", NeedCG: true, Quick: cfgAMD32, Thorough: cfgAll,
-		Explanation: "Decides necessary conditions for rejecting well-checksummed but inconsistent archives without crashing: all wire integers (18 discovered fields, the recovery exponent, the decoder's int copies) are bounded before conversion, allocation, slicing and division; narrow-type arithmetic does not wrap before widening (WIRE, per GOARCH); recovery blocks have the slice size (SHLEN); mandatory packets are checked before use (NILF); differences used as lengths are non-negative (MKLEN); header-field table lookups stay in range (RANGE); and no buffer that fails the archive's own 16k-hash or MD5 is written (WGUARD). Later additions: empty checksum lists rejected (IFSCPAIRS); reslicing bounded by len/cap (SLICECAP); one slice record per checksum pair (SHARDTAB); no allocation from an unchecked declared size (ALLOCBOUND); the coder has a row for every exponent index (PAIR decoder dims); a volume file is accepted only after its main packet matched the index file's slice size and file-id sets (VOLCONS).",
+		Explanation: "Decides necessary conditions for rejecting well-checksummed but inconsistent archives without crashing: all wire integers (18 discovered fields, the recovery exponent, the decoder's int copies) are bounded before conversion, allocation, slicing and division; narrow-type arithmetic does not wrap before widening (WIRE, per GOARCH); recovery blocks have the slice size (SHLEN); mandatory packets are checked before use (NILF); differences used as lengths are non-negative (MKLEN); header-field table lookups stay in range (RANGE); and no buffer that fails the archive's own 16k-hash or MD5 is written (WGUARD). Later additions: empty checksum lists rejected (IFSCPAIRS); reslicing bounded by len/cap (SLICECAP); one slice record per checksum pair (SHARDTAB); no allocation from an unchecked declared size (ALLOCBOUND); the coder has a row for every exponent index (PAIR decoder dims); a volume file is accepted only after its main packet matched the index file's slice size and file-id sets (VOLCONS). A file listed in the main packet whose description or slice-checksum packet is missing is rejected (GATE G8): missing mandatory packets never reach the coder as a set with fewer slices than declared.",
 		NotDecided:  []string{"proportional allocation in general (the coder matrix is sized by the highest exponent; the slice size is used as allocation unit)", "full panic freedom", "overflow of products such as index*sliceSize"},
 		Run: func(w *World, r *Report, tier string) {
 			guard(r, "WIRE", func() {
@@ -522,6 +527,7 @@ func init() {
 				defer func() { wireTruncation = true }()
 				ruleWIRE(w, r)
 			})
+			guard(r, "GATE", func() { r.rule("GATE", ruleGATEText); gateRecoverySetComplete(w, r) })
 			guard(r, "SHLEN", func() { ruleSHLEN(w, r) })
 			guard(r, "VOLCONS", func() { ruleVOLCONS(w, r) })
 			guard(r, "IFSCPAIRS", func() { ruleIFSCPAIRS(w, r) })
@@ -538,9 +544,10 @@ func init() {
 
 	register(&propertySpec{
 		ID: "C20", Fixtures: []string{"GLOB", "EFF", "DIVZERO", "EXTCUT"}, NeedCG: true, Quick: cfgAMD, Thorough: cfgAll,
-		Explanation: "Decides the exit-status mapping of cmd/par.main on its control-flow graph with no-return inference and a small abstract interpreter for the helpers: after each library call no path with a non-nil error reaches status 0 and every status there is a known non-zero constant; verify's success side exits with processRepairChecker(result counts); the repair error of each format reaches that format's classifier before any exit and the classifier's true edge exits 2; formats are selected by path.Ext; usage errors exit 3; main cannot fall off its end (CLI 1-6). processRepairChecker and the verdict predicates are evaluated exhaustively over their finite comparison domain against the table in the property (DECIDE). The type the PAR2 classifier asserts is exactly the type ReconstructData returns on the not-enough-parity edge (PAIR-ERRTYPE). Volume discovery returns every matching directory entry, so 'possible' is judged on all recovery files present (GLOB). The library operations declare success only through the decoder (ENTRY-SEQ) and relative data paths are made absolute against the current directory with filepath.Abs (DETERM D-d). The PAR1 double check verifies shards completed by Reconstruct, parity included (PAIR reconstruct-then-verify). Later additions: flag sets use ContinueOnError (CLI 7); the reader returns the OS error itself (ERRIDENT); not-enough needs a missing slice (NEEDSLICE); PAR1 repair without any parity volume reports too few shards (PAR1NOPAR); 'repaired' presupposes that the bytes were written: whole-file write primitive, no dropped write error, reported iff written (EFF write-impl, ERRFLOW, REPORT); PAR1 usability gates (GATE); no division in cmd/par by a count that can be zero - a panic would exit with status 2 (DIVZERO); the volume search prefix is the index path cut by length, so 'possible' is judged on the volumes really present (EXTCUT, BASECUT).",
+		Explanation: "Decides the exit-status mapping of cmd/par.main on its control-flow graph with no-return inference and a small abstract interpreter for the helpers: after each library call no path with a non-nil error reaches status 0 and every status there is a known non-zero constant; verify's success side exits with processRepairChecker(result counts); the repair error of each format reaches that format's classifier before any exit and the classifier's true edge exits 2; formats are selected by path.Ext; usage errors exit 3; main cannot fall off its end (CLI 1-6). processRepairChecker and the verdict predicates are evaluated exhaustively over their finite comparison domain against the table in the property (DECIDE). The type the PAR2 classifier asserts is exactly the type ReconstructData returns on the not-enough-parity edge (PAIR-ERRTYPE). Volume discovery returns every matching directory entry, so 'possible' is judged on all recovery files present (GLOB). The library operations declare success only through the decoder (ENTRY-SEQ) and relative data paths are made absolute against the current directory with filepath.Abs (DETERM D-d). The PAR1 double check verifies shards completed by Reconstruct, parity included (PAIR reconstruct-then-verify). Later additions: flag sets use ContinueOnError (CLI 7); the reader returns the OS error itself (ERRIDENT); not-enough needs a missing slice (NEEDSLICE); PAR1 repair without any parity volume reports too few shards (PAR1NOPAR); 'repaired' presupposes that the bytes were written: whole-file write primitive, no dropped write error, reported iff written (EFF write-impl, ERRFLOW, REPORT); PAR1 usability gates (GATE); no division in cmd/par by a count that can be zero - a panic would exit with status 2 (DIVZERO); the volume search prefix is the index path cut by length, so 'possible' is judged on the volumes really present (EXTCUT, BASECUT). The counts the status is computed from come from files judged by the full predicate (MUSTPASS).",
 		NotDecided:  []string{"which library error arises in which archive state (e.g. PAR2 'no parity shards' is an unclassified error)", "flag parsing semantics of package flag", "resolution of relative paths by the OS"},
 		Run: func(w *World, r *Report, tier string) {
+			guard(r, "MUSTPASS", func() { ruleMUSTPASS(w, r) })
 			guard(r, "BASECUT", func() { ruleBASECUT(w, r) })
 			guard(r, "EXTCUT", func() { ruleEXTCUT(w, r) })
 			guard(r, "DIVZERO", func() { ruleDIVZERO(w, r, "cmd/par") })
